@@ -449,6 +449,72 @@ func (d *drv) checkImage(dir string, what string) *fail {
 
 // ---------------------------------------------------------------- steps
 
+// fillSegment creates filler series in partition p (one batch, one fsync) so that exactly `leave` bytes of the active
+// segment stay free. Entry size = 9 (flag+id) + uvarint(len) + 2 + len(name) + 1.
+func (d *drv) fillSegment(p int, leave int) error {
+	part := d.f.Partitions()[p]
+	seg := activeSeg(part)
+	rem := int64(tsdb.SeriesSegmentSize(seg.ID())) - seg.Size() - int64(leave)
+	if rem < 64 {
+		return fmt.Errorf("active segment already (almost) full: %d bytes to fill", rem)
+	}
+	var sizes []int64
+	for rem > 120000 {
+		sizes = append(sizes, 60015)
+		rem -= 60015
+	}
+	if rem > 60000 {
+		sizes = append(sizes, rem/2)
+		rem -= rem / 2
+	}
+	sizes = append(sizes, rem)
+	var nn [][]byte
+	var tt []models.Tags
+	var cks []ckey
+	for _, e := range sizes {
+		// name length L with 9 + vl + L + 3 = e, vl = uvarint size of L+3
+		L := int64(-1)
+		for _, vl := range []int64{1, 2, 3} {
+			l := e - 12 - vl
+			sz := l + 3
+			if l >= 12 && ((vl == 1 && sz < 128) || (vl == 2 && sz >= 128 && sz < 16384) || (vl == 3 && sz >= 16384)) {
+				L = l
+			}
+		}
+		if L < 0 || L > 65535 {
+			return fmt.Errorf("no filler name length for an entry of %d bytes", e)
+		}
+		name := bytes.Repeat([]byte{'R'}, int(L))
+		for {
+			d.counter++
+			copy(name, fmt.Sprintf("%012d", d.counter))
+			if sk := skeyOf(name, nil); partOfKey(sk) == p {
+				cks = append(cks, ckey{name: append([]byte(nil), name...), skey: sk})
+				break
+			}
+		}
+		nn = append(nn, cks[len(cks)-1].name)
+		tt = append(tt, nil)
+	}
+	n0 := len(part.Segments())
+	ids, err := d.f.CreateSeriesListIfNotExists(nn, tt)
+	if err != nil {
+		return err
+	}
+	for i, id := range ids {
+		if id == 0 || d.ever[id] {
+			return fmt.Errorf("filler creation returned id %d (zero or already exposed)", id)
+		}
+		d.ever[id] = true
+		d.fill[id] = cks[i]
+	}
+	seg = activeSeg(part)
+	if len(part.Segments()) != n0 || int64(tsdb.SeriesSegmentSize(seg.ID()))-seg.Size() != int64(leave) {
+		return fmt.Errorf("fill missed: %d segments (was %d), %d bytes free, wanted %d", len(part.Segments()), n0, int64(tsdb.SeriesSegmentSize(seg.ID()))-seg.Size(), leave)
+	}
+	return nil
+}
+
 func (d *drv) createFillers(p int, n int, big bool) error {
 	for n > 0 {
 		m := min(n, 64)
@@ -593,15 +659,78 @@ func (d *drv) run() rt.Result {
 				}
 			}
 		case "roll":
+			// fill the active segment, then one more (small) filler is the entry that does not fit
 			p := d.f.Partitions()[s.P]
 			n0 := len(p.Segments())
-			for k := 0; len(p.Segments()) == n0; k++ {
-				if k > 200 {
-					return rt.Infra("segment did not roll after 200 x 60 kB fillers")
+			if err := d.fillSegment(s.P, d.rng.Intn(9)); err != nil {
+				return rt.Infra("roll: " + err.Error())
+			}
+			if err := d.createFillers(s.P, 1, false); err != nil {
+				return rt.Infra("roll filler: " + err.Error())
+			}
+			if len(p.Segments()) != n0+1 {
+				return rt.Infra("segment did not roll")
+			}
+			nontrivial = true
+		case "deleteroll":
+			// the entry that does not fit is the tombstone: < 9 bytes are left in the active segment
+			real, ok := d.s2r[s.ID]
+			if !ok {
+				return rt.Infra(fmt.Sprintf("delete of spec id %d that was never bound", s.ID))
+			}
+			pn := d.f.SeriesIDPartitionID(real)
+			p := d.f.Partitions()[pn]
+			n0 := len(p.Segments())
+			if err := d.fillSegment(pn, d.rng.Intn(9)); err != nil {
+				return rt.Infra("deleteroll: " + err.Error())
+			}
+			if _, err := d.f.DeleteSeriesID(real, true); err != nil {
+				return rt.Fail(i, "delete failed: "+err.Error(), err.Error(), nil)
+			}
+			if len(p.Segments()) != n0+1 {
+				return rt.Infra("tombstone did not roll into a new segment")
+			}
+			for k, id := range d.live {
+				if id == real {
+					deleted[k] = true
 				}
-				if err := d.createFillers(s.P, 1, true); err != nil {
-					return rt.Infra("roll filler: " + err.Error())
-				}
+			}
+			nontrivial = true
+		case "crashroll":
+			// roll-over in flight: the new segment exists, the entry that did not fit never reached it
+			d.waitCompactions()
+			p := d.f.Partitions()[s.P]
+			n0 := len(p.Segments())
+			if err := d.fillSegment(s.P, d.rng.Intn(9)); err != nil {
+				return rt.Infra("crashroll: " + err.Error())
+			}
+			for _, q := range d.f.Partitions() {
+				q.CompactThreshold = 0
+			}
+			ck := d.mkKey(0, "inflight", s.P)
+			if _, err := d.f.CreateSeriesListIfNotExists([][]byte{ck.name}, []models.Tags{ck.tags}); err != nil {
+				return rt.Infra("crashroll create: " + err.Error())
+			}
+			if len(p.Segments()) != n0+1 {
+				return rt.Infra("segment did not roll")
+			}
+			seg := activeSeg(p)
+			path, size := seg.Path(), seg.Size()
+			dir := d.dir
+			if err := d.f.Close(); err != nil {
+				return rt.Infra("close: " + err.Error())
+			}
+			fh, err := os.OpenFile(path, os.O_WRONLY, 0)
+			if err != nil {
+				return rt.Infra(err.Error())
+			}
+			_, err = fh.WriteAt(make([]byte, size-tsdb.SeriesSegmentHeaderSize), tsdb.SeriesSegmentHeaderSize)
+			fh.Close()
+			if err != nil {
+				return rt.Infra(err.Error())
+			}
+			if err := d.open(dir); err != nil {
+				return rt.Fail(i, "open after crash in a segment roll-over failed: "+err.Error(), err.Error(), nil)
 			}
 			nontrivial = true
 		case "compact":
